@@ -169,6 +169,24 @@ pub fn alphabet(inst: usize, allowed: &[u16], ids: &[u16], layouts: usize) -> Ve
         let full = ipm(vec![ip_t(id0, 2), ip_t(id1, 0)]);
         add("IPFIX-message-truncated-inside-its-second-template-set".into(), full[..full.len() - 3].to_vec(), None, 10, false);
     }
+    // sets / flowsets with an unused or reserved id (IPFIX 0, 1, 4..=255; V9 2..=255) whose body happens to be a
+    // well-formed template record: they are not template sets, define nothing, and - no template being cached under
+    // such an id - decode to nothing
+    {
+        let mut rec = vec![];
+        p16(&mut rec, id0);
+        p16(&mut rec, 2);
+        for f in layout(1) {
+            p16(&mut rec, f.ty);
+            p16(&mut rec, f.len);
+        }
+        for sid in [0u16, 1, 4, 254, 255] {
+            add(format!("reserved-set-id-{}(IPFIX, body = template record for {})", sid, id0), ipm(vec![IpfixSet::Data(sid, rec.clone())]), None, 10, false);
+        }
+        for sid in [2u16, 255] {
+            add(format!("reserved-flowset-id-{}(V9, body = template record for {})", sid, id0), v9p(vec![V9Set::Data(sid, rec.clone())]), None, 9, false);
+        }
+    }
     // a template flowset whose (only) record announces more fields than it holds: complete flowset, incomplete record
     let mut b = v9p(vec![v9_t(id0, 1)]);
     b[26..28].copy_from_slice(&3u16.to_be_bytes());
